@@ -44,7 +44,12 @@ SOURCE_FUNCS = [("mesa/agent.py", "Agent.__init__"), ("mesa/agent.py", "Agent.re
                 ("mesa/model.py", "Model.agents_by_type"), ("mesa/agent.py", "AgentSet.do"), ("mesa/agent.py", "AgentSet.shuffle_do"),
                 ("mesa/agent.py", "AgentSet.map"), ("mesa/agent.py", "AgentSet.add"), ("mesa/agent.py", "AgentSet.remove"),
                 ("mesa/agent.py", "AgentSet.discard"), ("mesa/agent.py", "AgentSet._update")]
-NCLS = 5
+NCLS = 8   # A, B(A), C(B), D, mesa.Agent, and three classes overriding remove(): E(A), F(D), G(A)
+OVERRIDING = (5, 6, 7)
+
+
+def _gen_cls(rng):
+    return rng.randrange(5) if rng.random() < 0.8 else rng.choice(OVERRIDING)
 E_KEY = 1
 
 
@@ -67,11 +72,17 @@ class _Sim:
         if c not in self.types[m]:
             self.types[m].append(c)
 
-    def remove(self, k):
+    def remove(self, k, dispatch=True):
         if 0 <= k < len(self.born):
-            m = self.born[k][0]
+            m, c = self.born[k]
+            if dispatch and c == 7:
+                return
+            if dispatch and c == 5:
+                self.create(m, 3)
             if k in self.live[m]:
                 self.live[m].remove(k)
+            if dispatch and c == 6:
+                self.create(m, 3)
 
     def act(self, self_k, a):
         if a[0] == "remove_self":
@@ -98,7 +109,7 @@ class _Sim:
         elif k in ("create", "create_many", "remove", "remove_all"):
             self.act(None, op)
         elif k == "deregister":
-            self.remove(op[1])
+            self.remove(op[1], dispatch=False)
         elif k == "activate":
             m, c = op[1], op[2]
             if 0 <= m < self.n:
@@ -131,11 +142,11 @@ def _gen_act(rng, sim, m):
         return ["remove", rng.choice(pool)] if pool else ["nop"]
     if r < 0.75:
         tm = m if rng.random() < 0.75 else rng.randrange(sim.n)
-        c = rng.randrange(NCLS)
+        c = _gen_cls(rng)
         return ["create", tm, c, 0 if c == 4 else rng.randint(0, 9)]
     if r < 0.9:
         tm = m if rng.random() < 0.75 else rng.randrange(sim.n)
-        c = rng.randrange(NCLS)
+        c = _gen_cls(rng)
         n = rng.randint(0, 2)
         return ["create_many", tm, c, n, *_gen_form(rng, n, c)]
     if r < 0.93:
@@ -150,10 +161,10 @@ def _gen_op(rng, sim):
     if nlive > 14:
         r = 0.45 + r * 0.3
     if r < 0.25 or not sim.born:
-        c = rng.randrange(NCLS)
+        c = _gen_cls(rng)
         return ["create", m, c, 0 if c == 4 else rng.randint(0, 9)]
     if r < 0.43:
-        c = rng.randrange(NCLS)
+        c = _gen_cls(rng)
         n = rng.choice([0, 1, 2, 2, 3, 3, 4, -1])
         return ["create_many", m, c, n, *_gen_form(rng, n, c)]
     if r < 0.62:
@@ -230,6 +241,7 @@ def gen_cases(rng, tier):
 
 _ALPHABET = [
     ["create", 0, 0, 1], ["create", 0, 2, 2], ["create", 1, 0, 3], ["create", 0, 4, 0],
+    ["create", 0, 5, 4], ["create", 0, 6, 5], ["create", 1, 7, 6],
     ["create_many", 0, 1, 2, "list", [5, 6], "pos"],
     ["create_many", 1, 2, 2, "tuple", [7], "kw"],
     ["remove", 0], ["remove", 1], ["remove", 2], ["deregister", 0],
@@ -239,6 +251,7 @@ _ALPHABET = [
     ["activate", 0, None, "do", "name", "ALL:create"],
     ["activate", 0, None, "shuffle_do", "callable", "ALL:remove_next"],
     ["activate", 0, 0, "map", "callable", "ALL:create_other"],
+    ["activate", 0, None, "do", "name", "ALL:remove_key2"],
 ]
 
 
@@ -249,13 +262,13 @@ def _expand(op, nkeys=8):
     sc = []
     for k in range(nkeys):
         a = {"remove_self": ["remove_self"], "create": ["create", 0, 1, k], "remove_next": ["remove", k + 1],
-             "create_other": ["create", 1, 3, k]}[what]
+             "create_other": ["create", 1, 3, k], "remove_key2": ["remove", 2]}[what]
         sc.append([k, a])
     return op[:5] + [sc]
 
 
 def enumerate_cases(tier, broken=False):
-    """every sequence of length <= 3 (4 in the thorough tier) over 16 ops on two models"""
+    """every sequence of length <= 3 (4 in the thorough tier) over 20 ops on two models"""
     depth = 4 if tier == "thorough" else 3
     for d in range(1, depth + 1):
         for seq in itertools.product(range(len(_ALPHABET)), repeat=d):
@@ -299,7 +312,26 @@ class _Driver:
 
         B = type("B", (A,), {})
         C = type("C", (B,), {"extra": 1})
-        self.classes = [A, B, C, D, mesa.Agent]
+        drv = self
+
+        class E(A):            # work first, super().remove() late
+            def remove(self):
+                drv.spawn(self, 3, 50)
+                drv.note_super_remove(self)
+                super().remove()
+
+        class F(D):            # super().remove() first, work afterwards
+            def remove(self):
+                drv.note_super_remove(self)
+                super().remove()
+                drv.spawn(self, 3, 60)
+
+        class G(A):            # forgets super().remove(): the agent is never deregistered
+            def remove(self):
+                pass
+
+        self.suspend = 0
+        self.classes = [A, B, C, D, mesa.Agent, E, F, G]
         self.cidx = {c: i for i, c in enumerate(self.classes)}
         self.models = [mesa.Model(seed=7 + i) for i in range(case["nmodels"])]
         self.born = []          # agents, index = key (strong references for the whole history)
@@ -388,19 +420,34 @@ class _Driver:
         self.check("create_agents")
         return keys
 
+    # hooks called by the overriding remove() methods of E, F, G
+    def spawn(self, agent, c, v):
+        m = self.s_model[self.kof(agent)]
+        a = self.classes[c](self.models[m], v)
+        self.adopt(a, m, c)
+
+    def note_super_remove(self, agent):
+        k = self.kof(agent)
+        self.s_removed[k] = True
+        self.s_hidden.discard(k)
+
     def do_remove(self, k):
         if not 0 <= k < len(self.born):
             return False
         a = self.born[k]
         was = self.s_removed[k]
-        self.s_removed[k] = True
-        self.s_hidden.discard(k)
+        if self.s_cls[k] not in OVERRIDING:
+            self.s_removed[k] = True
+            self.s_hidden.discard(k)
+        self.suspend += 1     # the property is about the moments between calls of the API, not inside remove()
         try:
             a.remove()
         except Exception as e:  # noqa: BLE001
             self.fail("C02/Agent.remove/raised",
                       f"agent.remove() of agent #{k} ({'already removed' if was else 'live'}) raised {type(e).__name__}: {e}")
             raise
+        finally:
+            self.suspend -= 1
         self.check("Agent.remove")
         return True
 
@@ -408,10 +455,14 @@ class _Driver:
         if not 0 <= m < len(self.models):
             return False
         for k in range(len(self.born)):
-            if self.s_model[k] == m:
+            if self.s_model[k] == m and self.s_cls[k] not in OVERRIDING:
                 self.s_removed[k] = True
                 self.s_hidden.discard(k)
-        self.models[m].remove_all_agents()
+        self.suspend += 1
+        try:
+            self.models[m].remove_all_agents()     # agent.remove() of every registered agent, overrides included
+        finally:
+            self.suspend -= 1
         self.check("remove_all_agents")
         return True
 
@@ -441,6 +492,8 @@ class _Driver:
         return [k for k in range(len(self.born)) if self.s_model[k] == m and not self.s_removed[k]]
 
     def check(self, site):
+        if self.suspend:
+            return
         for m, model in enumerate(self.models):
             live = self.live(m)
             # agents discarded from model.agents through the AgentSet API are - by what the code does - live and
